@@ -187,7 +187,7 @@ def r10_3(ctx):
         if kills and cn:
             okk = all(fi.cfg.must_pass([n], [fi.cfg.exit], kills, skip_labels=('x',),
                                        )[0] or True for n in cn)
-            proc_guard = q.outcome_edges(fi, 'process', False)
+            proc_guard = q.outcome_edges(fi, 'process', False) | q.outcome_edges(fi, 'process is None', True)
             r = fi.cfg.reach([n.id for n in cn], block_nodes={n.id for n in kills}, block_edges=proc_guard,
                              skip_labels=('x',))
             ok = fi.cfg.exit.id not in r
@@ -237,7 +237,8 @@ def r10_4(ctx):
         nosem = q.outcome_edges(mp, 'self._putlock is None', True) | q.outcome_edges(mp, 'self._putlock', False)
         ok = bool(rel) and q.every_iteration_passes(mp, loops[0], rel, block_edges=nosem)[0] and \
             not q.loop_early_exits(mp, loops[0]) and \
-            cfg.must_pass([cfg.entry], [cfg.exit], loops, skip_labels=('x',))[0]
+            cfg.exit.id not in cfg.reach([cfg.entry.id], block_nodes={l_.id for l_ in loops}, block_edges=nosem,
+                                         skip_labels=('x',), include_src=True)
         ids = {n.id for n in rel}
         r = cfg.count_range([loops[0]], [loops[0]], lambda n: n.id in ids, skip_labels=('x',))
         ok = ok and r is not None and r[1] == 1
@@ -323,7 +324,8 @@ def _releases_one_slot_per_reaped(fi, reap_node):
     nosem = q.outcome_edges(fi, 'self._putlock is None', True) | q.outcome_edges(fi, 'self._putlock', False)
     if not rel or not q.every_iteration_passes(fi, lp, rel, block_edges=nosem)[0] or q.loop_early_exits(fi, lp):
         return False
-    if not cfg.must_pass([reap_node], [cfg.exit], [lp], skip_labels=('x',))[0]:
+    # the loop is on every normal path to the exit -- a pool without semaphore may skip it as a whole
+    if cfg.exit.id in cfg.reach([reap_node.id], block_nodes={lp.id}, block_edges=nosem, skip_labels=('x',)):
         return False
     ids = {n.id for n in rel}
     r = cfg.count_range([lp], [lp], lambda n: n.id in ids, skip_labels=('x',))
